@@ -710,6 +710,9 @@ COMPANIONS = {
     "comp_f.java": b"public class J extends B implements I { private final int a = 1; synchronized void f() throws E { for (int x : xs) { assert x > 0; } } }\n",
     "comp_h.tcc": b"template<class T> class Holder : public Base<T> { public: int in, out; int f() { return in * out; } };\n",
     "COMP_I": b"class K : public B { int get; int set; };\nint g(int in, int out) { return in * out; }\n",
+    # include lists that share names, one of them the file's own header (the include sorter keeps per-file caches)
+    "beta.cpp": b'#include "gamma.h"\n#include "alpha.h"\n#include "beta.h"\n#include <vector>\nint b;\n',
+    "gamma.c": b'#include "beta.h"\n#include "gamma.h"\n#include <stdio.h>\n#include "alpha.h"\nint c;\n',
     "comp_g.cpp": b"namespace Z { template<typename T> class V final { public: V() = default; auto f() -> decltype(T()) { return T(); } }; }\n",
 }
 
@@ -719,7 +722,19 @@ def part_batches(ctx, exe, base, cases):
     language from each file's own extension, whatever was formatted before it"""
     rng = ctx.rng
     boxes = []
-    for ci, (cfg, ip, ldir) in enumerate(cases):
+    # two synthetic cases under include-sorting configurations
+    sdir = os.path.join(base, "bt-sort")
+    os.makedirs(sdir)
+    with open(os.path.join(sdir, "alpha.cpp"), "wb") as f:
+        f.write(b'#include "beta.h"\n#include <map>\n#include "alpha.h"\n#include "gamma.h"\nint a;\n')
+    extra = []
+    for k, body in enumerate(("mod_sort_include=true\n", "mod_sort_include=true\nmod_sort_incl_import_prioritize_filename=true\n"
+                              "mod_sort_incl_import_prioritize_angle_over_quotes=true\nmod_sort_incl_import_grouping_enabled=true\n")):
+        cp = os.path.join(sdir, "sort%d.cfg" % k)
+        with open(cp, "w") as f:
+            f.write(body)
+        extra.append((cp, os.path.join(sdir, "alpha.cpp"), "cpp"))
+    for ci, (cfg, ip, ldir) in enumerate(list(cases) + extra):
         raw = open(ip, "rb").read()
         n = os.path.basename(ip)
         if n in COMPANIONS or len(raw) > 30000:
